@@ -316,6 +316,23 @@ def make_fsd_add(first):
         check(Fraction(int(back.numerator), int(back.denominator) * int(back.tuple_div or 1)) == got,
               "sum changes value through its string", s)
         check(str(back) == s, "sum string is not a fixpoint", s, str(back))
+
+        def text_value(txt):
+            tot = Fraction(0)
+            for comp in txt.split("+"):
+                f = [int(x) for x in comp.split("/")]
+                tot += Fraction(f[0], (f[1] if len(f) > 1 else 1) * (f[2] if len(f) > 2 else 1))
+            return tot
+
+        check(text_value(s) == exact, "the written sum does not denote the sum of its operands", s, exact)
+        # a plain duration added to a sum, on either side: the additive components keep every operand's own value
+        for (x, y, lab) in ((a, c, "a+(a+b)"), (c, a, "(a+b)+a")):
+            e = must_not_raise(lambda: x + y, _what="FractionalSymbolicDuration.__add__ (" + lab + ")")
+            exact3 = exact + Fraction(n1, DENS[d1] * (TUP[t1] or 1))
+            check(text_value(str(e)) == exact3, "the written sum does not denote the sum of its operands", lab, str(e), exact3)
+            if exact3.denominator <= 1024 and int(e.denominator) <= 1024:
+                check(Fraction(int(e.numerator), int(e.denominator) * int(e.tuple_div or 1)) == exact3,
+                      "duration addition is not exact", lab, str(e))
         return s
 
     return h
